@@ -2,6 +2,7 @@
 //   contact_driver pair   <cases.ndjson> <out.ndjson>   one node against one triangle through the model's public narrow phase (C07)
 //   contact_driver tissue <cases.ndjson> <out.ndjson>   a whole contact_model::run against the same narrow phase applied to ALL node-triangle pairs (C06)
 #include "mesh_probe.hpp"
+#include <map>
 #include "shapes.hpp"
 #include "contact_node_node_via_coupling.hpp"
 #include "contact_node_face_via_spring.hpp"
@@ -110,9 +111,9 @@ int main(int argc, char** argv) {
             o.key("others").d(others);
         } else {
             // tissue: cells on the lattice
-            std::vector<cell_ptr> L, Lref;
-            for (int pass = 0; pass < 2; pass++) {
-                auto& dst = pass == 0 ? L : Lref;
+            std::vector<cell_ptr> L, Lref, Lre;
+            for (int pass = 0; pass < 3; pass++) {
+                auto& dst = pass == 0 ? L : pass == 1 ? Lref : Lre;
                 for (size_t i = 0; i < C["cells"].size(); i++) {
                     const vj::value& cc = C["cells"][i];
                     shapes::tmesh m;
@@ -127,8 +128,14 @@ int main(int argc, char** argv) {
             }
             const double lmin = C["lmin"].d() * u, cut = C["cut"].d() * u;
             open_model mdl(params(lmin, cut, cut));
-            zero(L); zero(Lref);
+            zero(L); zero(Lref); zero(Lre);
             mdl.run(L);
+            // the same tissue through a model object that is RE-USED from case to case (one per parameter set), as the solver re-uses
+            // its contact model -- and the grid inside it -- at every iteration while the tissue moves
+            static std::map<std::pair<double, double>, std::unique_ptr<open_model>> reused;
+            auto& rm = reused[std::make_pair(lmin, cut)];
+            if (!rm) rm = std::make_unique<open_model>(params(lmin, cut, cut));
+            rm->run(Lre);
             // reference: the same narrow phase on every node-triangle pair of different cells (and the models' own node / face gates)
             open_model ref(params(lmin, cut, cut));
             long pairs = 0;
@@ -156,6 +163,12 @@ int main(int argc, char** argv) {
                     netx += N[q].force().dx(); nety += N[q].force().dy(); netz += N[q].force().dz();
                 }
             }
+            double maxdiff_re = 0;
+            for (size_t i = 0; i < Lre.size(); i++) {
+                auto& N = cell_tester::nodes(*Lre[i]); auto& M = cell_tester::nodes(*Lref[i]);
+                for (size_t q = 0; q < N.size(); q++) maxdiff_re = std::max(maxdiff_re, (N[q].force() - M[q].force()).norm());
+            }
+            o.key("equal_reused").b(maxdiff_re <= 1e-9 * maxf + 1e-300);
             o.key("pairs").i(pairs).key("nonzero_nodes").i(nonzero);
             o.key("equal").b(maxdiff <= 1e-9 * maxf + 1e-300).key("net_zero").b(std::sqrt(netx * netx + nety * nety + netz * netz) <= 1e-9 * maxf * std::max(1L, nonzero) + 1e-300);
             char buf[100]; snprintf(buf, sizeof buf, "maxdiff %.3e maxforce %.3e", maxdiff, maxf);
